@@ -538,3 +538,102 @@ def rsp_cases(rng, n, cmds, malformed_share=(1, 2)):
             d = wellformed_rsp(rng, base, rng.choice(STATUS[:8]) if rng.chance(1, 3) else None)
         out.append((pend, crit, list(d)))
     return out
+
+
+# ---------------------------------------------------------------- C14 oracle for the TRXC response parser
+
+def _show_case(case):
+    pend, crit, d = case
+    return dict(pending=None if pend is None else pend.decode("latin-1"), critical=bool(crit), datagram=list(d),
+                datagram_text=bytes(d).decode("latin-1"))
+
+
+STALE_RESP = [((b"CMD SETTA 3", False, list(b"RSP SETTA 7 3\0")), (b"CMD SETTA 3", False, list(b"RSP SETTA 0 3\0")))]
+STALE_TEXT = ((None, False, list(b"XXXXXXXXXXXXXX947000 -33\0")), (None, False, list(b"XXXXXXXXXXXXXX936000 -44\0")))
+STALE_MEAS = ((b"CMD MEASURE 947000", True, list(b"RSP MEASURE 0 947000 -33\0")), (b"CMD MEASURE 936000", True, list(b"RSP MEASURE 0 936000 -44\0")))
+
+
+def stale_stack_witness(case, what):
+    """Shows on the ASan build that the outcome of `case` depends on what an EARLIER, unrelated datagram left on the stack:
+    the same (pending, datagram) is run after two different predecessors in the same process; differing observations mean
+    a value the call never wrote was read.  what: 1 resp, 2 MEASURE text beyond the datagram, 3 freq10, 4 dbm.
+    -> None | dict(first=..., second=..., observed_first=..., observed_second=...)"""
+    if what == 1:
+        pre = STALE_RESP[0]
+    elif what == 2:
+        pre = STALE_TEXT
+    else:
+        pre = STALE_MEAS
+    toks = run_lines([rsp_line([pre[0], case]), rsp_line([pre[1], case])])
+    obs = [parse_rsp_obs(t, 2)[-1] for t in toks]
+    keys = ("outcome", "rc", "f2a_arg", "rsp_called", "arfcn", "dbm")
+    a = {k: obs[0].get(k) for k in keys}
+    b = {k: obs[1].get(k) for k in keys}
+    if a != b:
+        return dict(predecessor_first=_show_case(pre[0]), predecessor_second=_show_case(pre[1]), observed_first=a, observed_second=b)
+    return None
+
+
+UNINIT_KEYS = {1: "c14-c-ctrl-uninit-resp", 2: "c14-c-measure-offset", 3: "c14-c-measure-uninit-result", 4: "c14-c-measure-uninit-result"}
+
+
+def ctrl_malformed_campaign(ctx, n, use_msan=True):
+    """C14 oracle of trx_ctrl_read_cb: n generated replies (valid + malformed) with and without a pending command.
+    Returns [(key, witness)] - at most 3 witnesses per key:
+      c14-c-ctrl-null-deref        the forked ASan/UBSan run died with SEGV at a tiny address (sscanf(p + 1) with p = NULL)
+      c14-c-ctrl-uninit-resp       `resp` read uninitialised (stale-stack differential on the ASan build and/or MSan report)
+      c14-c-measure-offset         MEASURE text taken from buf + 14 beyond the received octets (stale-stack differential / MSan)
+      c14-c-measure-uninit-result  freq10 / dbm of trx_if_measure_rsp_cb used without having been assigned
+      c14-c-ctrl-crash-other       any other sanitizer report
+      c14-c-ctrl-model-disagrees   the extracted model and the real code differ on a case (the proofs then say nothing about it)"""
+    rng = ctx.rng.fork("ctrl-campaign")
+    cmds = sample_cmds(rng, 50)
+    cobs = [parse_cmd_obs(t) for t in run_lines([cmd_line(c, fork=(c[0] == "setslot")) for c in cmds])]
+    texts = sorted(set(q[1] for o in cobs if "queue" in o for q in o["queue"]))
+    fixed = [(b"CMD POWERON", True, list(b"RSP POWERON")), (b"CMD POWERON", True, list(b"RSP POWERON\0")), (b"CMD ECHO", True, list(b"RSP ")),
+             (b"CMD POWERON", True, list(b"RSP POWERON x\0")), (b"CMD POWERON", True, list(b"RSP POWERON \0")),
+             (b"CMD MEASURE 935200", True, list(b"RSP MEASURE 0")), (b"CMD MEASURE 935200", True, list(b"RSP MEASURE 0\0")),
+             (b"CMD MEASURE 935200", True, list(b"RSP MEASURE 0 935200\0")), (b"CMD MEASURE 935200", True, list(b"RSP MEASURE 0 x\0"))]
+    cases = fixed + rsp_cases(rng, max(0, n - len(fixed)), texts, malformed_share=(3, 4))
+    obs = c_ctrl_rsp_many(cases)
+    model = ctx.model("TrxIf", [m_rsp_line(c) for c in cases])
+    found = {}
+
+    def add(key, wit):
+        found.setdefault(key, [])
+        if len(found[key]) < 3:
+            found[key].append(wit)
+            return True
+        return False
+
+    for case, o, m in zip(cases, obs, model):
+        w = rsp_wire(o)
+        ctx.count("ctrl-campaign:" + o["outcome"])
+        if o["outcome"].startswith("crash:"):
+            key = "c14-c-ctrl-null-deref" if o["outcome"] == "crash:null-deref" else "c14-c-ctrl-crash-other"
+            if len(found.get(key, [])) < 3:
+                sym = c_ctrl_rsp(case[0], case[2], critical=case[1])      # re-run with the symbolizer for the source line
+                add(key, dict(case=_show_case(case), sanitizer=sym.get("crash") or o["crash"], model=m))
+        if m[0] == 80:
+            key = UNINIT_KEYS.get(m[1], "c14-c-ctrl-uninit-resp")
+            if len(found.get(key, [])) < 3:
+                st = stale_stack_witness(case, m[1])
+                if st is not None:
+                    add(key, dict(case=_show_case(case), how="same call after two different earlier datagrams (same process, ASan build)", **st))
+        elif w != m:
+            add("c14-c-ctrl-model-disagrees", dict(case=_show_case(case), impl=w, model=m, sanitizer=o.get("crash")))
+    # MemorySanitizer on the cases the model flags (and a sample of the others): direct reports of uninitialised reads
+    if use_msan and build_harness(ctx, msan=True):
+        idx = [k for k, m in enumerate(model) if m[0] == 80][:60] + [k for k, m in enumerate(model) if m[0] not in (80, 90)][:40]
+        mobs = c_ctrl_rsp_many([cases[k] for k in idx], msan=True)
+        for k, o in zip(idx, mobs):
+            m = model[k]
+            if o["outcome"] == "crash:uninit":
+                key = UNINIT_KEYS.get(m[1], "c14-c-ctrl-uninit-resp") if m[0] == 80 else "c14-c-ctrl-model-disagrees"
+                if len([w for w in found.get(key, []) if "msan" in w]) < 1:
+                    sym = c_ctrl_rsp(cases[k][0], cases[k][2], critical=cases[k][1], msan=True)
+                    found.setdefault(key, []).append(dict(case=_show_case(cases[k]), msan=sym.get("crash") or o["crash"], model=m))
+            ctx.count("ctrl-campaign-msan:" + o["outcome"])
+    else:
+        ctx.note("ctrl_malformed_campaign: no MSan build (clang missing); uninitialised reads shown by the stale-stack differential only")
+    return [(k, w) for k in sorted(found) for w in found[k]]
